@@ -78,6 +78,9 @@ def generate(rng, tier):
                        tag="a64:%s:nofp:%s:%s" % (pres, inner["func"].shape, inner["b"].kind))
             s.meta[ln] = {"chain": [list(c) for c in sc["chain"]], "arch": "a64", "mask": mask}
         out.append(("truth-a64-nofp-%s-%d" % (policy, pi), s))
+    # functions whose FDE follows an empty FDE with the same start (C12's stream: the CFI still describes them exactly)
+    from props import C12 as _c12
+    out += [("c12-" + n, sc) for n, sc in _c12.empty_twin_scripts(rng)]
     return out
 
 def judge(script, impl):
@@ -85,6 +88,10 @@ def judge(script, impl):
     for ln, m in script.meta.items():
         line = impl.get(ln)
         if line is None:
+            continue
+        if "twin_real" in m:
+            from props import C12 as _c12
+            _c12.judge_twin_real(ln, m, impl, bad)
             continue
         items = [x.strip() for x in line[5:].split("|")]
         if "chain" in m:
